@@ -29,7 +29,7 @@ CHECKS = {
         text='Theorems rt_unsigned / rt_signed (what the integer result writers emit is read back by the strtol/strtoul models to the same value, every value of the width, bases 2/8/10/16), result_text_lexes / rt_text_copy (the quoted text is one string token and the copy loop returns the text), block_header_block / result_block_lexes (header + data is one block token whose payload is the data, every length < 10^9), rt_uint_array (the canonical digits of non-zero 32-bit values joined by commas -- what the ASCII array writer emits -- are read back by the array reader element by element to the same values). Tied and completed by a two-phase round trip on the implementation for all result types incl. 8/16-bit, floats, doubles and ASCII arrays.',
         technique='Coq proof (round-trip lemmas composing formatter and reader models) + two-phase round-trip execution on implementation and model', design='7/C07'),
     'C08': dict(
-        text='PARTIAL. Theorems pending_is_prefix (the only thing carried between input calls is the unprocessed bytes), quiet_chunk_accumulates, split_before_message, chunks_before_message (any split before the first completed message is invisible; byte-at-a-time delivery of a message equals one call). The remaining lexical statement (units found in a buffer are found again after bytes are appended) is false for a line terminator inside a quoted string (recorded finding) and is otherwise decided by comparing every chunking of generated streams on the implementation with byte-at-a-time delivery, and with the model.',
+        text='PARTIAL. Theorems pending_is_prefix (the only thing carried between input calls is the unprocessed bytes), quiet_chunk_accumulates, split_before_message, chunks_before_message (any split before the first completed message is invisible), partition_reduction (if cutting a stream once is invisible for a class of streams kept by feeding prefixes, every partition behaves like one chunk), partition_one_message / message_in_pieces / one_message_any_partition (instance, complete: a message of arbitrary content in which CR and LF occur only as the last byte, delivered to an empty buffer it fits into, leaves the same context -- same handler calls, parameters, output, errors, remainder -- under EVERY partition into chunks, byte-at-a-time included, as in one call), flush_executes_pending and overrun_discards (the zero-length and the overrun clauses). The remaining lexical statement for streams of several messages per call (units found in a buffer are found again after bytes are appended) is false for a line terminator inside a quoted string (recorded finding) and is otherwise decided by comparing every chunking of generated streams on the implementation with byte-at-a-time delivery, and with the model.',
         technique='Coq proof of the reduction to prefix stability + chunking-equivalence execution (implementation vs itself and vs model)', design='7/C08'),
     'C09': dict(
         text='Theorems message_isolated / input_isolated / inputs_isolated: two model contexts that agree on command table, input buffer, error queue and trace and differ arbitrarily in every scratch field produce the same return value, the same events and agreeing contexts, for one message, one input call and any sequence of calls with any handler scripts. Tied by running B after A and B alone on the implementation and comparing B\'s events.',
